@@ -1002,7 +1002,65 @@ impl<'a, 'b> Gen<'a, 'b> {
         let n = 1 + self.ch.below(self.cfg.max_forms);
         let depth = self.cfg.max_depth;
         for _ in 0..n {
-            match self.ch.weighted(&[3, 4, 2, 6, 1, 1, 1, 1, 1, 1]) {
+            match self.ch.weighted(&[3, 4, 2, 6, 1, 1, 1, 1, 1, 1, 1, 1]) {
+                10 => {
+                    // only #f is false: a test whose value is unspecified, the empty list, 0, an empty vector or a string
+                    let k = forms.len();
+                    let test = match self.ch.below(7) {
+                        0 => Expr::If(Box::new(Expr::Bool(false)), Box::new(Expr::Bool(false)), None),
+                        1 => app("for-each", vec![var("car"), Expr::Quote(Datum::List(vec![], None))]),
+                        2 => app("vector-set!", vec![app("vector", vec![Expr::Int(1)]), Expr::Int(0), Expr::Int(2)]),
+                        3 => Expr::Quote(Datum::List(vec![], None)),
+                        4 => Expr::Int(0),
+                        5 => app("vector", vec![]),
+                        _ => Expr::Str(String::new()),
+                    };
+                    let yes_no = |t: Expr| Expr::If(Box::new(t), Box::new(Expr::Quote(Datum::Sym("yes".into()))), Some(Box::new(Expr::Quote(Datum::Sym("no".into())))));
+                    let name = format!("truthy{}", k);
+                    match self.ch.below(3) {
+                        0 => forms.push(Form::Expr(yes_no(test))),
+                        1 => {
+                            // in tail position of a procedure body
+                            forms.push(Form::Define(Def { name: name.clone(), value: Expr::Lambda(Formals { fixed: vec!["t".into()], rest: None }, body1(yes_no(var("t")))), sugar: self.ch.chance(1, 2) }));
+                            forms.push(Form::Expr(app(&name, vec![test])));
+                        }
+                        _ => forms.push(Form::Expr(app("list", vec![yes_no(test.clone()), app("not", vec![test])]))),
+                    }
+                }
+                11 => {
+                    // an internal definition named like a parameter (fixed or rest) of its own procedure shadows the argument
+                    let k = forms.len();
+                    let name = format!("shadow-arg{}", k);
+                    let v = self.ch.range(10, 99) as i32;
+                    if self.ch.chance(1, 2) {
+                        forms.push(Form::Define(Def {
+                            name: name.clone(),
+                            value: Expr::Lambda(
+                                Formals { fixed: vec!["a".into(), "b".into()], rest: None },
+                                Box::new(Body {
+                                    defs: vec![
+                                        Def { name: "get-b".into(), value: Expr::Lambda(Formals { fixed: vec![], rest: None }, body1(var("b"))), sugar: true },
+                                        Def { name: "b".into(), value: Expr::Int(v), sugar: false },
+                                    ],
+                                    exprs: vec![app("list", vec![var("a"), var("b"), app("get-b", vec![])])],
+                                }),
+                            ),
+                            sugar: self.ch.chance(1, 2),
+                        }));
+                        forms.push(Form::Expr(app(&name, vec![Expr::Int(1), Expr::Int(2)])));
+                    } else {
+                        forms.push(Form::Define(Def {
+                            name: name.clone(),
+                            value: Expr::Lambda(
+                                Formals { fixed: vec!["a".into()], rest: Some("more".into()) },
+                                Box::new(Body { defs: vec![Def { name: "more".into(), value: app("list", vec![Expr::Int(v), var("a")]), sugar: false }], exprs: vec![var("more")] }),
+                            ),
+                            sugar: true,
+                        }));
+                        forms.push(Form::Expr(app(&name, vec![Expr::Int(1), Expr::Int(2), Expr::Int(3)])));
+                        forms.push(Form::Expr(app(&name, vec![Expr::Int(1)])));
+                    }
+                }
                 8 => {
                     // data that are themselves quotations: ''a is the list (quote a), also inside lists and vector literals
                     let qd = |d: Datum| Datum::List(vec![Datum::Sym("quote".into()), d], None);
